@@ -177,9 +177,9 @@ pub(super) fn range_piece(p: &mut Parser) -> CompletedMarker {
     integer(p).or_error(p, "expected integer or bitrange");
     if p.at_set(&[T![...], T![-]]) {
         p.eat();
-    }
-    if p.at(TokenKind::IntVal) {
         integer(p).or_error(p, "expected integer value as end of range");
+    } else if p.at(TokenKind::IntVal) {
+        integer(p);
     }
     p.finish_node();
     CompletedMarker::Success
@@ -214,6 +214,9 @@ pub(super) fn slice_element(p: &mut Parser) -> CompletedMarker {
     value(p);
     if p.at_set(&[T![...], T![-]]) {
         p.eat();
+        if !p.at_set(&VALUE_START) {
+            p.error("expected value as end of range");
+        }
     }
     opt_value(p);
     p.finish_node();
